@@ -882,6 +882,41 @@ def check_hysc_large(case, ctx):
     ctx.nontrivial(N > 100)
 
 
+
+# --------------------------------------------------------------------------
+# cross_process: the same fit in another interpreter run (another PYTHONHASHSEED) -- nothing may
+# depend on the iteration order of a set of string labels
+
+
+def cross_digest(case):
+    h = build(case)
+    model, u, w, maxL, ev = run_mt(case, h)
+    return {"u": np.asarray(u, dtype=float).tolist(), "w": np.asarray(w, dtype=float).tolist(),
+            "maxL": float(maxL)}
+
+
+@st.composite
+def cross_cases(draw, tier):
+    c = draw(mt_cases(tier, n_real=(1, 2)))
+    c["max_iter"] = min(c["max_iter"], 15)
+    c["hashseed"] = draw(st.sampled_from([1, 12345]))
+    return c
+
+
+def check_cross_process(case, ctx):
+    from ..common import in_child
+    nodes, edges, covered = abstract(case)
+    classify(case, ctx, nodes, edges, covered)
+    here = cross_digest(case)
+    there = in_child("hgxverif.props.c17", "cross_digest", case, case["hashseed"])
+    require(here == there,
+            lambda: "HypergraphMT.fit with seed %d returns log-likelihood %r here and %r in an "
+                    "interpreter started with PYTHONHASHSEED=%d (u equal: %s, w equal: %s)"
+            % (case["seed"], here["maxL"], there["maxL"], case["hashseed"],
+               here["u"] == there["u"], here["w"] == there["w"]), key="depends-on-hashseed")
+    ctx.nontrivial(case["kind"] == "strs")
+
+
 CLAUSES = [
     Clause("mt_validity", lambda tier: mt_cases(tier), check_validity,
            quick=200, thorough=900, shards_quick=2,
@@ -890,6 +925,8 @@ CLAUSES = [
            check_bookkeeping,
            quick=150, thorough=600, shards_quick=2,
            rule=">= 2 realisations whose final log-likelihoods differ"),
+    Clause("mt_cross_process", cross_cases, check_cross_process, quick=24, thorough=40,
+           rule="string node labels"),
     Clause("mt_ascent", lambda tier: mt_cases(tier, normalizeU=False, ascent=True), check_ascent,
            quick=300, thorough=1200, shards_quick=3,
            rule=">= 5 strict increases of the log-likelihood among the demanded comparisons and "
